@@ -1,6 +1,7 @@
 //! vcheck <property> <quick|thorough>  |  vcheck <property> --replay <file>
 #![allow(dead_code, unused_imports)]
 mod evidence;
+mod faults;
 mod known;
 mod model;
 mod ops;
@@ -31,6 +32,7 @@ fn main() {
     let workers: usize = std::env::var("VERIF_WORKERS").ok().and_then(|s| s.parse().ok()).unwrap_or(16);
     let ctx = Ctx { property: property.clone(), tier, seed, replay, workers };
     panics::install();
+    faults::install();
     let code = props::dispatch(&ctx);
     std::process::exit(code);
 }
